@@ -614,13 +614,4 @@ def r07c(R):
             sorted(norm(c.args[0]) for c in pct) ==
             ['%s[1]' % f.params[0], '%s[2]' % f.params[0]],
             'saturation/brightness are not converted with _pct_to_raw')
-    # the VM takes raw time as milliseconds
-    w = A.func(MACHINE, 'Machine._wait')
-    ok = False
-    for n in A.cfg(w).nodes:
-        if n.kind == 'stmt' and isinstance(n.ast, ast.AugAssign) \
-                and isinstance(n.ast.op, ast.Div) \
-                and A.try_fold(n.ast.value, w) == 1000:
-            ok = True
-    R.check(w, 'raw delay / 1000', ok, 'in raw units the WAIT delay is no '
-            'longer taken as milliseconds')
+    # (the VM taking raw time as milliseconds: R14.d, per unit mode)
